@@ -123,6 +123,57 @@ func ruleSeekOff(c *Ctx, r *Rep, tier string) {
 		r.Instance(rule, 1)
 		r.Fail(rule, "bgzf.(*countReader).seek#off", c.Pos(fn.Pos()), "the offset is never recorded")
 	}
+	// … and the buffered bytes go with the offset: what was read ahead from the
+	// old position is thrown away only where the new offset is recorded. Dropped
+	// on the failure path too, the recorded offset P no longer says where the
+	// next byte comes from (the raw position Q past the buffer), and the next
+	// read of the block at P skips the seek and decodes from Q (tenth-round seed
+	// C09-l).
+	frF := c.Field("bgzf", "countReader", "fr")
+	k := 0
+	allInstrs(fn, func(ins ssa.Instruction) {
+		discard := false
+		switch x := ins.(type) {
+		case *ssa.Store:
+			if fa, ok := x.Addr.(*ssa.FieldAddr); ok && fieldVarOfAddr(fa) == frF {
+				discard = true
+			}
+		case *ssa.Call:
+			if x.Call.IsInvoke() && x.Call.Method.Name() == "Reset" {
+				v := x.Call.Value
+				for i := 0; i < 4; i++ {
+					switch y := v.(type) {
+					case *ssa.TypeAssert:
+						v = y.X
+						continue
+					case *ssa.Extract:
+						v = y.Tuple
+						continue
+					case *ssa.ChangeInterface:
+						v = y.X
+						continue
+					}
+					break
+				}
+				if f, _ := loadedField(v); f == frF {
+					discard = true
+				}
+			}
+		}
+		if !discard {
+			return
+		}
+		k++
+		r.Instance(rule, 1)
+		ok := false
+		for _, b := range fn.Blocks {
+			ce, isC := classifyErrIf(b, func(v ssa.Value) bool { ex, isEx := v.(*ssa.Extract); return isEx && ex.Tuple == ssa.Value(seek) })
+			if isC && ce.isNil && dominatedByEdge(fn, b, ce.yes, ins.Block()) {
+				ok = true
+			}
+		}
+		r.Check(ok, rule, fmt.Sprintf("bgzf.(*countReader).seek#buffer~%d", k), c.Pos(ins.Pos()), "the read-ahead buffer is discarded on the success edge of the underlying Seek only", "the buffered bytes are discarded whether or not the underlying Seek succeeded, the recorded offset is not: after a failed seek the offset says P, the next byte comes from past the dropped buffer, and a read of the block at P skips the seek")
+	})
 }
 
 // ruleWriteArgOwned (OWN-WRITE-ARG): Writer.Write only copies from its argument.
